@@ -1,5 +1,6 @@
 //! hcv — bounded exhaustive exploration harness for Heathcliff (see /verif/DESIGN.md).
 pub mod e2;
+pub mod e2c;
 pub mod engine;
 pub mod he;
 pub mod props;
